@@ -57,6 +57,7 @@ type HarnessResult struct {
 	Steps        int64
 	Funcs        map[string]int
 	MapOrderFixed bool
+	SchedPaths   int // completed paths that depend on scheduler/select/map-order choices (not natively replayable)
 	Wall         float64
 	ends         map[string]int
 }
@@ -80,7 +81,7 @@ type Explorer struct {
 
 func newWorld(ld *Loaded, id int) (*World, error) {
 	w := &World{prog: ld.prog, globals: map[*ssa.Global]*value{}, pkgInit: map[*ssa.Package]bool{}, pkgInitDone: map[*ssa.Package]bool{},
-		tt: NewTermTable(), id: id, funcs: map[*ssa.Function]int{}, varsMemo: map[*Term][]*Term{}}
+		tt: NewTermTable(), id: id, funcs: map[*ssa.Function]int{}, varsMemo: map[*Term][]*Term{}, fpMemo: map[*Term]uint32{}}
 	s, err := StartSolver(gQueryTimeoutMs)
 	if err != nil {
 		return nil, err
@@ -211,6 +212,7 @@ func newRun(item workItem, h *Harness) *Run {
 	if r.witness == nil {
 		r.witness = Model{}
 	}
+	r.parentLog = item.dbgLog
 	return r
 }
 
@@ -239,6 +241,7 @@ func (w *World) runPath(fn *ssa.Function, item workItem) (out pathOut) {
 	if w.tt.Size() > 2_000_000 {
 		w.tt = NewTermTable()
 		w.varsMemo = map[*Term][]*Term{}
+		w.fpMemo = map[*Term]uint32{}
 		w.solver.Reset()
 	}
 	func() {
@@ -313,6 +316,7 @@ func (ex *Explorer) merge(w *World, out pathOut) {
 		return
 	}
 	if out.violation != nil {
+		out.violation.Sched = r.schedDependent
 		dup := false
 		for _, v := range res.Violations {
 			if v.Label == out.violation.Label && v.Kind == out.violation.Kind {
@@ -349,7 +353,10 @@ func (ex *Explorer) merge(w *World, out pathOut) {
 			res.Samples = append(res.Samples, PathSample{Harness: res.Name, Decisions: len(r.taken), Inputs: in, Asserts: r.asserts, End: out.end})
 		}
 	}
-	if out.end == "end" && len(res.Vectors) < ex.maxVec {
+	if out.end == "end" && r.schedDependent {
+		res.SchedPaths++
+	}
+	if out.end == "end" && !r.schedDependent && len(res.Vectors) < ex.maxVec {
 		res.Vectors = append(res.Vectors, w.makeVector(r, "ok"))
 	}
 }
@@ -363,6 +370,9 @@ func (w *World) makeVector(r *Run, status string) *Vector {
 	sort.Strings(v.Known)
 	memo := map[*Term]uint64{}
 	for _, ir := range r.inputs {
+		if ir.Env {
+			continue
+		}
 		v.Values = append(v.Values, r.witness[ir.Name]&maskB(ir.W))
 		v.Labels = append(v.Labels, ir.Label)
 	}
@@ -425,6 +435,9 @@ func violationVector(h *Harness, v *Violation) *Vector {
 	}
 	sort.Strings(vec.Known)
 	for _, ir := range v.Inputs {
+		if ir.Env {
+			continue
+		}
 		vec.Values = append(vec.Values, v.Model[ir.Name]&maskB(ir.W))
 		vec.Labels = append(vec.Labels, ir.Label)
 	}
